@@ -14,10 +14,51 @@ import (
 
 // siblingChecks runs E8 on the Fiat primitives reachable from the exported API and records the results under prop.
 func siblingChecks(p *load.Prog, r *report.Report, prop string) {
+	siblingChecksFrom(p, r, prop, p.ExportedAPI(), 9)
+}
+
+// leafEntries names, per property, the functions whose analysis takes the generated primitives as trusted leaves:
+// the primitives reachable from them must be intact (sibling cross-check) for the property's argument to stand.
+var leafEntries = map[string][]string{
+	"C01": {"Element.Multiply"},
+	"C02": {"Element.Add", "Element.Double", "Element.Subtract", "Element.Negate"},
+	"C03": {"Element.Decode", "Element.DecodeHex", "Element.UnmarshalBinary", "Element.DecodeCoordinates", "Element.DecodeCompressed", "Element.DecodeUncompressed"},
+	"C04": {"Element.Encode", "Element.EncodeUncompressed", "Element.XCoordinate", "Element.Hex", "Element.MarshalBinary"},
+	"C05": {"Element.Equal", "Element.IsIdentity"},
+	"C07": {"Scalar.Decode", "Scalar.DecodeHex", "Scalar.UnmarshalBinary", "Scalar.Encode", "Scalar.Hex", "Scalar.MarshalBinary"},
+	"C08": {"HashToGroup", "EncodeToGroup"},
+	"C09": {"HashToScalar"},
+	"C11": {"SSWU", "IsogenySecp256k13iso"},
+	"C13": {"Scalar.LessOrEqual", "Scalar.CSelect", "Scalar.Equal", "Scalar.IsZero", "Scalar.IsOne"},
+	"C14": {"Scalar.Bits"},
+	"C18": {"Scalar.Random"},
+}
+
+// leafIntegrity runs the sibling cross-check on the generated primitives reachable from the property's entries.
+func leafIntegrity(p *load.Prog, r *report.Report, prop string) {
+	var entries []*ssa.Function
+	for _, n := range leafEntries[prop] {
+		var fn *ssa.Function
+		if i := strings.Index(n, "."); i >= 0 {
+			fn = p.Method(p.Root, n[:i], n[i+1:])
+		} else {
+			fn = p.Root.Func(n)
+		}
+		if fn != nil {
+			entries = append(entries, fn)
+		}
+	}
+	if len(entries) == 0 {
+		return
+	}
+	siblingChecksFrom(p, r, prop, entries, 1)
+}
+
+func siblingChecksFrom(p *load.Prog, r *report.Report, prop string, entries []*ssa.Function, minPairs int) {
 	mp := sibling.NewModulus("p", FP.M)
 	mn := sibling.NewModulus("n", FN.M)
 	reach := map[*ssa.Function]bool{}
-	for _, f := range p.ExportedAPI() {
+	for _, f := range entries {
 		for g := range p.Reachable(f) {
 			reach[g] = true
 		}
@@ -82,5 +123,5 @@ func siblingChecks(p *load.Prog, r *report.Report, prop string) {
 			r.Check(ok2, prop+".aliassafe", fn.Pkg.Pkg.Name()+"."+fn.Name(), p.Pos(pos), "all loads through arguments precede all stores to outputs", "an argument is read after an output was written")
 		}
 	}
-	r.RequireCount(prop+".sibling", "Fiat primitives reachable from the API with a sibling", n, 9)
+	r.RequireCount(prop+".sibling", "Fiat primitives reachable from the property's entry points with a sibling", n, minPairs)
 }
